@@ -3,12 +3,12 @@
 EXTENDS Integers, Sequences, FiniteSets, TLC, Json
 CONSTANTS Keys, MaxOps
 VARIABLE hist
-\* the written tables: index ranges overlap (table 2 shares 20 indices with table 1), table 3 is disjoint, 4 is a subset of 1, 5 starts at the last index of 1, 6 overlaps 1 and has an extra column
-Range(t) == CASE t = 1 -> 0..24 [] t = 2 -> 5..34 [] t = 3 -> 100..124 [] t = 4 -> 3..6 [] t = 5 -> 24..30 [] t = 6 -> 20..27
+\* the written tables: index ranges overlap (table 2 shares 20 indices with table 1), table 3 is disjoint, 4 is a subset of 1, 5 starts at the last index of 1, 6 overlaps 1 and has an extra column, 7 has no rows
+Range(t) == CASE t = 1 -> 0..24 [] t = 2 -> 5..34 [] t = 3 -> 100..124 [] t = 4 -> 3..6 [] t = 5 -> 24..30 [] t = 6 -> 20..27 [] t = 7 -> {}
 Init == hist = <<>>
 Add(e) == hist' = Append(hist, e)
 Next == /\ Len(hist) < MaxOps
-        /\ \/ \E k \in Keys, t \in 1..6 : Add([op |-> "set", key |-> k, t |-> t])
+        /\ \/ \E k \in Keys, t \in 1..7 : Add([op |-> "set", key |-> k, t |-> t])
            \/ \E k \in Keys \cup {"never"} : Add([op |-> "get", key |-> k])
            \/ Add([op |-> "reopen"])
            \/ \E k \in Keys : Add([op |-> "unload", key |-> k])
